@@ -1,2 +1,189 @@
+//! `uci`: generated sessions through the real parser (`UCICommand::new`) and the real command loop
+//! (`Uci::uci_loop` reading from a buffer), observing the session position after every executed command.
 use super::*;
-pub fn uci_stream(_args: &[String]) {}
+use crate::board::verif as bv;
+use crate::uci::verif as uv;
+
+const VOCAB: [&str; 30] = [
+    "uci", "isready", "ucinewgame", "stop", "setoption", "name", "value", "Hash", "Threads", "Move", "Overhead", "position",
+    "startpos", "fen", "moves", "go", "depth", "nodes", "movetime", "wtime", "btime", "winc", "binc", "infinite",
+    "searchmoves", "ponder", "movestogo", "mate", "e2e4", "quit",
+];
+const JUNK: [&str; 18] = [
+    "", "-1", "0", "1", "255", "256", "18446744073709551616", "340282366920938463463374607431768211456", "+5", "1e3", "abc", "0x10", "e7e8k",
+    "E2E4", "e2e9", "ä", "name", "value",
+];
+
+fn rand_game(rng: &mut Rng, fen: &str, max: u64) -> (Vec<String>, Vec<Board>) {
+    let mut b = Board::from_fen(fen);
+    let mut moves = vec![];
+    let mut boards = vec![b.clone()];
+    for _ in 0..rng.below(max + 1) {
+        let legal = b.get_legal_moves();
+        if legal.is_empty() {
+            break;
+        }
+        // bias towards special moves
+        let special: Vec<&Ply> = legal.iter().filter(|m| m.is_castles || m.en_passant || m.promoted_to.is_some()).collect();
+        let m = if !special.is_empty() && rng.below(3) == 0 { *special[rng.below(special.len() as u64) as usize] } else { legal[rng.below(legal.len() as u64) as usize] };
+        moves.push(m.to_notation());
+        b.make_move(m);
+        boards.push(b.clone());
+    }
+    (moves, boards)
+}
+
+fn corrupt(rng: &mut Rng, moves: &mut Vec<String>, boards: &[Board]) {
+    if moves.is_empty() {
+        moves.push("e2e5".into());
+        return;
+    }
+    let i = rng.below(moves.len() as u64) as usize;
+    match rng.below(7) {
+        0 => moves[i] = "a1h8".into(),
+        1 => moves[i] = format!("{}k", &moves[i][..4]),
+        2 => moves[i] = moves[i].to_uppercase(),
+        3 => {
+            // castling written as king-takes-rook
+            moves[i] = if boards[i].current_turn == Color::White { "e1h1".into() } else { "e8h8".into() }
+        }
+        4 => moves[i] = moves[i][..3].to_string(),
+        5 => {
+            // a promotion suffix on a non-promotion, or a missing one
+            if moves[i].len() == 5 {
+                moves[i] = moves[i][..4].to_string();
+            } else {
+                moves[i] = format!("{}q", moves[i]);
+            }
+        }
+        _ => {
+            // a move legal for the other side
+            let mut b = boards[i].clone();
+            b.switch_turn();
+            if let Some(m) = b.get_legal_moves().first() {
+                moves[i] = m.to_notation();
+            }
+        }
+    }
+}
+
+fn position_line(rng: &mut Rng, corrupt_it: bool) -> String {
+    let fen = super::walk::SEEDS[rng.below(super::walk::SEEDS.len() as u64) as usize];
+    let start = rng.below(3) == 0;
+    let base = if start { super::walk::SEEDS[0] } else { fen };
+    let (mut moves, boards) = rand_game(rng, base, 24);
+    if corrupt_it {
+        corrupt(rng, &mut moves, &boards);
+    }
+    let head = if start { "position startpos".to_string() } else { format!("position fen {base}") };
+    match rng.below(8) {
+        0 => head,
+        1 if !moves.is_empty() => format!("{head} {}", moves.join(" ")), // `moves` keyword forgotten
+        _ => {
+            if moves.is_empty() {
+                head
+            } else {
+                format!("{head} moves {}", moves.join(" "))
+            }
+        }
+    }
+}
+
+fn junk_line(rng: &mut Rng) -> String {
+    let n = rng.below(7);
+    let mut toks: Vec<String> = vec![];
+    for _ in 0..n {
+        if rng.below(3) == 0 {
+            toks.push(JUNK[rng.below(JUNK.len() as u64) as usize].to_string());
+        } else {
+            toks.push(VOCAB[rng.below(VOCAB.len() as u64) as usize].to_string());
+        }
+    }
+    // never a bare quit in the middle, never `position fen` with junk (FEN arguments are assumed valid), never a real `go`
+    let line = toks.join(if rng.below(5) == 0 { "  \t " } else { " " });
+    let t: Vec<&str> = line.split_whitespace().collect();
+    if t.first() == Some(&"quit") || (t.first() == Some(&"position") && t.get(1) == Some(&"fen")) || t.first() == Some(&"go") {
+        return format!("x{line}");
+    }
+    line
+}
+
+fn go_line(rng: &mut Rng) -> String {
+    // only ever *parsed* in-process (P lines); never executed
+    let keys = ["depth", "nodes", "movetime", "wtime", "btime", "winc", "binc", "infinite", "searchmoves", "ponder", "mate", "movestogo", "bogus"];
+    let mut s = "go".to_string();
+    for _ in 0..rng.below(6) {
+        s.push(' ');
+        s.push_str(keys[rng.below(keys.len() as u64) as usize]);
+        if rng.below(4) != 0 {
+            s.push(' ');
+            if rng.below(3) == 0 {
+                s.push_str(JUNK[rng.below(JUNK.len() as u64) as usize]);
+            } else {
+                s.push_str(&rng.below(100_000).to_string());
+            }
+        }
+    }
+    s
+}
+
+/// `--sessions N --shard i --of n --seed S`
+pub fn uci_stream(args: &[String]) {
+    let sessions: u64 = arg(args, "sessions", 100);
+    let shard: u64 = arg(args, "shard", 0);
+    let of: u64 = arg(args, "of", 1);
+    let seed: u64 = arg(args, "seed", 1);
+    let mut rng = Rng(seed.wrapping_mul(0x1000_0000_01B3).wrapping_add(991));
+    for sidx in 0..sessions {
+        let mut lines: Vec<String> = vec![];
+        let n = 2 + rng.below(10);
+        for _ in 0..n {
+            let l = match rng.below(10) {
+                0 | 1 | 2 => position_line(&mut rng, false),
+                3 | 4 => position_line(&mut rng, true),
+                5 => "isready".to_string(),
+                6 => "ucinewgame".to_string(),
+                7 => {
+                    let opts = ["setoption name Hash value 16", "setoption name value", "setoption value x name y", "setoption name Move Overhead value 30", "setoption name", "setoption", "setoption name Threads", "setoption name A value", "stop", "uci"];
+                    opts[rng.below(opts.len() as u64) as usize].to_string()
+                }
+                _ => junk_line(&mut rng),
+            };
+            lines.push(l);
+        }
+        lines.push("isready".to_string());
+        if rng.below(2) == 0 {
+            lines.push("quit".to_string());
+            lines.push("isready".to_string()); // never reached
+        }
+        if sidx % of != shard {
+            continue;
+        }
+        println!("U {sidx}");
+        // parser verdict per line (plus a few go lines that are parsed but never run)
+        let mut parse_only = lines.clone();
+        for _ in 0..4 {
+            parse_only.push(go_line(&mut rng));
+        }
+        for l in &parse_only {
+            let fields: Vec<&str> = l.trim().split_whitespace().collect();
+            let verdict = std::panic::catch_unwind(|| uv::parse_kind(&fields)).unwrap_or_else(|_| "panic".to_string());
+            println!("I {l}");
+            println!("P {verdict}");
+        }
+        // the real loop over the executable lines
+        println!("E {}", lines.len());
+        *uv::BOARD_LOG.lock().unwrap() = Some(Vec::new());
+        let input = lines.join("\n") + "\n";
+        let outcome = std::panic::catch_unwind(|| uv::run_session(input.as_bytes()));
+        let log = uv::BOARD_LOG.lock().unwrap().take().unwrap_or_default();
+        for d in &log {
+            println!("B {d}");
+        }
+        match outcome {
+            Ok(fin) => println!("F {fin}"),
+            Err(_) => println!("X panic"),
+        }
+    }
+    println!("END");
+}
